@@ -61,6 +61,10 @@ pub const STRESS: &[&str] = &[
     "#define\n#ifdef\n#ifndef /* c */ $1\n#else\n#endif\n#endif\n#ifdef 99999999999999999999999\nclass A;\n#define ..\n",
     "class A;\n#ifdef X\nclass B : A;\n#else\nclass C : A {\n#endif\n}\ndef d : C;\n#ifndef X\n",
     "#ifdef UNDEF\n#ifdef INNER\nclass X;\n#else\nclass Y;\n#endif\nclass Z;\n#ifndef OTHER\ndef q : X;\n#endif\n#endif\nclass W;\n#ifdef UNDEF2\n#ifndef I2\n",
+    // cyclic class hierarchies met by every kind of type-compatibility question (initialiser, let, list element, template argument)
+    "class B;\nclass A : A;\ndef a : A;\nclass C { B b = a; list<B> l = [a]; }\ndef c : C { let b = a; }\nclass D<B p>;\ndef e : D<a>;\ndefvar w = !cast<B>(a);\n",
+    "class U;\nclass A : B;\nclass B : C;\nclass C : A;\ndef x : B;\nclass H { U u = x; A a = x; C c = x; }\ndef y : H { let u = x; }\nclass D<U q = x>;\nforeach i = [x] in def z # i : D<x>;\n",
+    "class P<int n> : P<n>;\nclass Q : P<1>, Q;\ndef q : Q;\nclass R { P<2> f = q; string s = q; list<Q> l = [q, q]; R r = q; }\ndef r : R { let f = q; let r = r; }\n",
     "def d { int a = !cast(1); int b = !isa(d); int c = !exists(\"d\"); int e = !getdagop((d)); dag f = !setdagop<int>((d), d); }\n",
 ];
 
@@ -98,6 +102,13 @@ fn derived_states(base: &Workspace, rng: &mut Rng, n_prefix: usize, n_edit: usiz
             let mut w = base.clone();
             w.files[fi].1 = text[..e].to_string();
             out.push((w, "prefix-char"));
+        }
+        // the whole file behind a character that tools like to treat specially at the start of a file (byte order
+        // mark, NUL, zero-width space): if one layer drops it and another counts it, every range in the file shifts
+        for lead in ["\u{feff}", "\u{feff}\n", "\0", "\u{200b}", "\u{feff}\u{feff}"] {
+            let mut w = base.clone();
+            w.files[fi].1 = format!("{}{}", lead, text);
+            out.push((w, "lead-in-char"));
         }
         // directed edits around preprocessor directives: the token after a directive replaced by lexemes the
         // lexer rejects or that are not names
@@ -463,7 +474,7 @@ impl Check for SwCheck {
     }
     fn floors(&self, tier: Tier) -> Vec<(&'static str, u64)> {
         let n = tier.pick(250, 9000);
-        let mut v = vec![("base_workspaces", n), ("base_with_includes", n / 4), ("state:prefix", n * 10), ("state:edit-delete", n), ("state:edit-replace", n), ("stress_patterns", STRESS.len() as u64), ("corpus_files", 39), ("base:non-ascii-adjacent", n / 6)];
+        let mut v = vec![("base_workspaces", n), ("base_with_includes", n / 4), ("state:prefix", n * 10), ("state:edit-delete", n), ("state:edit-replace", n), ("state:lead-in-char", n * 5), ("stress_patterns", STRESS.len() as u64), ("corpus_files", 39), ("base:non-ascii-adjacent", n / 6)];
         match self.mode {
             SMode::Coherence => v.extend([("goto_answers", n * 100), ("reference_roundtrips", n * 20)]),
             SMode::Ranges => v.extend([("ranges_checked", n * 1000), ("wire:workspaces", tier.pick(90, 2400)), ("wire:ranges_checked", tier.pick(3000, 100_000)), ("wire:references_answers", tier.pick(1000, 30_000)), ("wire:answers_naming_another_file", tier.pick(300, 10_000))]),
